@@ -63,6 +63,9 @@ def main(argv):
     ctx.rule = ("node lists of 1..6 nodes x use_vpc on/off x sequences of up to 4 reconfigurations (scale-up, scale-down, replacement, identical) x random reply segmentation "
                 "x a 60-key corpus after every reconfiguration; ERROR endpoints; non-trivial = distinct (use_vpc, history)")
     pool_nodes = [("node%d.abc.cache.amazonaws.com" % i, "10.0.%d.%d" % (i // 3, 10 + i), 11211 + (i % 2)) for i in range(9)]
+    # "any cluster configuration the endpoint advertises": host names are not always *.amazonaws.com (private zones, single labels, long TLDs)
+    pool_nodes += [("cache-1.prod.internal", "10.9.0.1", 11211), ("memcached-4", "10.9.0.2", 11212), ("node.example.localdomain", "172.16.200.7", 11300),
+                   ("UPPER.Case.Example", "192.168.1.250", 11211)]
     keys = ["key%d" % i for i in range(60)]
     lines, metas = [], []
     ncase = 0
